@@ -233,6 +233,10 @@ def build(case):
     labels = set()
 
     # -- make the case compatible with its mutation (the builder is the source of truth)
+    interim_list = [list(x) for x in case["interim"]]
+    if mut in INTERIM_REJECT and not interim_list:
+        interim_list = [[100, []]]
+    b.interim = interim_list
     if mut in CL_GROUP or (mut == "trailing_bytes" and framing == "close"):
         framing = "cl"
     if mut in CHUNK_GROUP:
@@ -379,11 +383,11 @@ def build(case):
 
     # -- interim responses
     iblocks = []
-    for idx, (icode, ihdrs) in enumerate(case["interim"]):
+    for idx, (icode, ihdrs) in enumerate(interim_list):
         ilines = [L1("HTTP/1.1 %d %s" % (icode, {100: "Continue", 102: "Processing", 103: "Early Hints"}[icode]))]
         for n, v in ihdrs:
             ilines.append(L1(n + ": " + v))
-        if idx == len(case["interim"]) - 1:
+        if idx == len(interim_list) - 1:
             if mut == "interim_cl":
                 ilines.append(b"Content-Length: 0")
             elif mut == "interim_te":
@@ -554,12 +558,14 @@ def build(case):
     b.verdict = verdict
 
     # -- labels
-    if case["interim"]:
+    if interim_list:
         labels.add("interim_1xx")
     if method == "HEAD":
         labels.add("head")
     if code in (204, 304):
         labels.add("no_body_status")
+        if not fr and end == "open":
+            labels.add("no_body_status_no_framing_header_peer_open")
     if framing == "close" and not nobody:
         labels.add("close_delimited")
     if framing == "chunked" and not nobody:
@@ -570,6 +576,7 @@ def build(case):
             labels.add("gzip_decoded")
     if mut is not None:
         labels.add("mutated")
+        labels.add("mut:" + mut)
     if cut is not None:
         labels.add("cut")
     labels.add("class_" + verdict[0])
@@ -592,7 +599,7 @@ def cross_check(b, case):
         except httpref.RefError as e:
             raise AssertionError("generator/reference disagreement (accept vs RefError %s): %r" % (e, case))
         fin = rs[-1]
-        if fin.code != b.code or fin.body != b.body_wire or len(rs) != len(case["interim"]) + 1:
+        if fin.code != b.code or fin.body != b.body_wire or len(rs) != len(b.interim) + 1:
             raise AssertionError("generator/reference disagreement on accept result: %r vs %r" % (fin, case))
         want = [(n.lower(), v) for n, v in b.exp_headers if n.lower() not in ("x-consumed-content-encoding",)]
         got = [(n.lower(), v) for n, v in fin.headers if not (b.decode and n.lower() == "content-encoding")]
@@ -726,7 +733,7 @@ def evaluate(ctx, case, b, st_, tag):
     kind, why = b.verdict
     o = st_["outcome"]
     summ = summarize(o)
-    interim = bool(case["interim"])
+    interim = bool(b.interim)
     base = {"run": tag, "class": kind, "why": why, "outcome": summ, "stream": b.delivered[:600], "end": case["end"]}
 
     # the request the client wrote must itself be one well-formed request of the right method
@@ -815,6 +822,9 @@ def evaluate(ctx, case, b, st_, tag):
                 sig = "C08.body_exceeds_max_body_size.close_delimited_plain"
             elif fall_1xx and why.startswith("head:"):
                 sig = "C08.after_interim_fallthrough"
+            elif b.gzkind == "multi" and b.decode and why == "body_over_max" and delivered_body == b.payload[: len(b.payload) // 2]:
+                # open finding: only the first gzip member is decoded (so the size limit is never reached)
+                sig = "C08.body_mismatch.gzip_multi_member_first_only"
             ctx.fail("C08.reject_returned_response", dict(base), sig=sig)
     elif kind == "first_or_error":
         if o[0] == "response":
@@ -870,13 +880,13 @@ def run_case(ctx, case):
             pass  # the error type may depend on where the bytes stopped
         elif a != c:
             sig = None
-            if case["interim"] and any(x[0] == "response" and x[1] in (100, 102, 103) for x in (a, c)):
+            if b.interim and any(x[0] == "response" and x[1] in (100, 102, 103) for x in (a, c)):
                 sig = "C08.after_interim_fallthrough"  # the 1xx itself was returned (open finding), with leftover bytes as body
             ctx.fail("C08.segmentation_dependent", {"class": kind, "why": why, "segmented": a, "one_segment": c,
                                                     "stream": b.delivered[:600]}, sig=sig)
         if case["streaming"] and b"".join(st1["chunks"]) != b"".join(st2["chunks"]) and a[0] == "response":
             sig = None
-            if case["interim"] and a[1] in (100, 102, 103):
+            if b.interim and a[1] in (100, 102, 103):
                 sig = "C08.after_interim_fallthrough"
             ctx.fail("C08.segmentation_dependent_chunks", {"class": kind, "why": why, "segmented": a, "one_segment": c}, sig=sig)
     labels = set(b.labels)
@@ -895,13 +905,44 @@ def run_case(ctx, case):
     multi_seg = st1["segments"] >= 3
     if multi_seg:
         labels.add("multi_segment")
-    nontrivial = multi_seg and bool(case["interim"] or "chunked" in labels or "gzip" in labels or case["mut"] or b.cut is not None)
+    nontrivial = multi_seg and bool(b.interim or "chunked" in labels or "gzip" in labels or case["mut"] or b.cut is not None)
     ctx.note(case, labels, nontrivial)
 
 
-PARTS = {"main": run_case}
+def _base(**kw):
+    c = {"method": "GET", "interim": [], "version": "HTTP/1.1", "code": 200, "reason": "OK",
+         "headers": [("X-A", "v1", " "), ("x-a", "v;2", "")], "fpos": 1, "framing": "cl", "payload": b"hello world " * 3,
+         "enc": None, "trunc": 3, "chunks": [5, 1, 9], "hexfmt": 0, "mut": None, "cut": None, "end": "eof",
+         "seg": {"sizes": [7, 1, 2], "cycle": True, "blk": 500}, "decompress": True, "streaming": False,
+         "header_cb": False, "mbs": None, "mhs": None, "timeouts": True}
+    c.update(kw)
+    return c
+
+
+def grid_cases():
+    """Deterministic sweep: every mutation under four client/stream configurations, and every gzip variant under
+    every framing / decompress / max_body_size placement (so the quick tier never depends on sampling luck)."""
+    for mut in [None] + ALL_MUTS:
+        yield _base(mut=mut)
+        yield _base(mut=mut, interim=[[100, []]], streaming=True, end="eof_later", framing="chunked", hexfmt=1)
+        yield _base(mut=mut, method="POST", enc="gzip", header_cb=True, timeouts=False, framing="close", version="HTTP/1.0",
+                    reason="")
+        yield _base(mut=mut, code=204, interim=[[103, [("X-A", "e")]], [100, []]], end="open", reason="Caf\xe9", framing="close")
+        yield _base(mut=mut, code=304, end="open", framing="chunked", streaming=True)
+        yield _base(mut=mut, method="HEAD", end="rst", seg={"sizes": [1], "cycle": True, "blk": 500})
+    for enc in [None, "gzip", "multi", "trunc", "crc", "magic", "mid", "garbage"]:
+        for framing in ["cl", "chunked", "close"]:
+            for decompress in [True, False]:
+                for mbs in [None, ("B", -1), ("B", 0), ("W", -1), ("W", 0)]:
+                    for streaming in [False, True]:
+                        yield _base(enc=enc, framing=framing, decompress=decompress, mbs=mbs, streaming=streaming,
+                                    payload=b"abcdefgh" * 150, chunks=[100, 333])
+
+
+PARTS = {"main": run_case, "grid": run_case}
 
 
 def main(ctx):
     ctx.run_replays(PARTS)
-    ctx.explore(case_s(), run_case, ctx.n(450, 40000), name="main")
+    ctx.enumerate(grid_cases(), run_case, name="grid", exhaustive=False)
+    ctx.explore(case_s(), run_case, ctx.n(1500, 60000), name="main")
